@@ -336,6 +336,15 @@ func stripScheme(u string) string {
 	return u[p:]
 }
 
+// cleanURLPath is the path an absolute URL is compared by: dot segments and repeated slashes resolved, and the empty path being the
+// root, so that "https://x", "https://x/" and "https://x/." are one equivalence class.
+func cleanURLPath(p string) string {
+	if p == "" {
+		return "/"
+	}
+	return filepath.Clean(p)
+}
+
 func irisEqual(i1, i2 IRI, checkScheme bool) bool {
 	u, e := i1.URL()
 	uw, ew := i2.URL()
@@ -350,8 +359,7 @@ func irisEqual(i1, i2 IRI, checkScheme bool) bool {
 	if !strings.EqualFold(u.Host, uw.Host) {
 		return false
 	}
-	if !(u.Path == "/" && uw.Path == "" || u.Path == "" && uw.Path == "/") &&
-		!strings.EqualFold(filepath.Clean(u.Path), filepath.Clean(uw.Path)) {
+	if !strings.EqualFold(cleanURLPath(u.Path), cleanURLPath(uw.Path)) {
 		return false
 	}
 	uq := u.Query()
